@@ -302,7 +302,7 @@ func (x *Explorer) expand(w *World, d int, path []string, next func(w *World, pa
 		}
 		nw := w.Clone()
 		bc := nw.NewBlockCtx()
-		bc.AllowStaleResolve = m.StaleResolve
+		bc.AllowStaleResolve = true // a renewal may follow a revision of the same contract in one block (it presents the pre-block parent)
 		var names []string
 		for _, i := range idx {
 			if !menu[i].Do(bc) {
